@@ -47,7 +47,7 @@ def r1(ctx):
                 def from_legals(os, depth=0):
                     for y in os:
                         if y[0] == "call" and y[1] == LEGALS:
-                            return all(z == ("param", "board") for a in y[2] for z in a)
+                            return all(z[0] == "param" and z[1] in board_params for a in y[2] for z in a)
                         if y[0] == "call" and ("IntoIterator>::into_iter" in y[1]) and depth < 4:
                             if from_legals([z for a in y[2] for z in a], depth + 1):
                                 return True
@@ -72,11 +72,11 @@ def r2(ctx):
         for t, v in lf.cond:
             if t[0] == "discr":
                 inner = t[1]
-                if inner == ("field", ("obj", ("param", 1, "board")), "turn") or (inner[0] == "app" and inner[1].endswith("Board::turn")):
+                if inner == ("field", ("obj", ("param", 1, "a1")), "turn") or (inner[0] == "app" and inner[1].endswith("Board::turn")):
                     turn = v
         if lf.ret[0] == "app":
             got[turn] = lf.ret[1].split("search_with::<")[1].split(",")[0] if "search_with::<" in lf.ret[1] else lf.ret[1]
-            ok_args = lf.ret[2][1] in (("refv", ("obj", ("param", 1, "board"))), ("param", 1, "board"))
+            ok_args = lf.ret[2][1] in (("refv", ("obj", ("param", 1, "a1"))), ("param", 1, "a1"))
             ctx.ob(f"dispatch[{turn}] passes the same board", ok_args, "search passes a different board to search_with", site=P.body(key).get("def_span"))
     ctx.ob("dispatch table", got == {"White": ENG + "White", "Black": ENG + "Black"}, f"Engine::search dispatches {got}; expected White->White, Black->Black",
            site=P.body(key).get("def_span"), sample=got)
